@@ -1254,6 +1254,37 @@ func isDoneOf(v ssa.Value, ctxName string, fn *ssa.Function) bool {
 	if fv, ok := x.(*ssa.FreeVar); ok && fv.Name() == ctxName {
 		return true
 	}
+	// a closure reads a captured variable through a pointer (go/ssa captures by reference): *ctxName, provided the
+	// enclosing function assigns the variable exactly once (so every read sees the same context)
+	if u, ok := x.(*ssa.UnOp); ok && u.Op == token.MUL {
+		if fv, ok := u.X.(*ssa.FreeVar); ok && fv.Name() == ctxName && fn.Parent() != nil {
+			stores := 0
+			var walk func(f *ssa.Function)
+			walk = func(f *ssa.Function) {
+				for _, b := range f.Blocks {
+					for _, in := range b.Instrs {
+						if st, ok := in.(*ssa.Store); ok {
+							switch a := st.Addr.(type) {
+							case *ssa.Alloc:
+								if a.Comment == ctxName {
+									stores++
+								}
+							case *ssa.FreeVar:
+								if a.Name() == ctxName {
+									stores++
+								}
+							}
+						}
+					}
+				}
+				for _, a := range f.AnonFuncs {
+					walk(a)
+				}
+			}
+			walk(fn.Parent())
+			return stores == 1
+		}
+	}
 	return false
 }
 
